@@ -1396,6 +1396,46 @@ func (e *specEnv) evalCall(x *SX) (Val, types.Type, error) {
 			return Val{T: fmt.Sprintf("(and (=> ((_ is a_map) %s) (> (a_m %s) %s)) (=> ((_ is a_list) %s) (> (s_ref (a_l %s)) %s)))", a.T, a.T, wm, a.T, a.T, wm), S: SBool}, nil, nil
 		}
 		return Val{}, nil, fmt.Errorf("fresh of %s", a.S)
+	case "frame":
+		// frame(): every row that existed at function entry and is outside the assigns clause holds what it
+		// held at entry, for every heap class (a loop invariant that carries the function's frame through a
+		// loop whose writes go to objects made during the call)
+		if e.callee != nil || c.Spec == nil || !c.Spec.HasAssigns {
+			return Val{}, nil, fmt.Errorf("frame() is only meaningful in the loops of a function with an assigns/pure clause")
+		}
+		allowed := c.assignRows(c.Spec, c.params, c.entry)
+		wm0 := c.heapIn(c.entry, "$wm")
+		var conj []string
+		for _, n := range c.knownHeaps() {
+			if n == "$wm" {
+				continue
+			}
+			cur, old := c.heapIn(e.st, n), c.heapIn(c.entry, n)
+			if cur == old {
+				continue
+			}
+			if strings.HasPrefix(n, "G|") {
+				if !allowed.globals[n] {
+					conj = append(conj, fmt.Sprintf("(= %s %s)", cur, old))
+				}
+				continue
+			}
+			var ex []string
+			for _, row := range allowed.rows[n] {
+				ex = append(ex, fmt.Sprintf("(not (= qr %s))", row))
+			}
+			pre := fmt.Sprintf("(and (<= 1 qr) (<= qr %s)", wm0)
+			if len(ex) > 0 {
+				pre += " " + strings.Join(ex, " ")
+			}
+			pre += ")"
+			conj = append(conj, fmt.Sprintf("(forall ((qr Int)) (! (=> %s (= (select %s qr) (select %s qr))) :pattern ((select %s qr))))", pre, cur, old, cur))
+		}
+		c.heapReads++
+		if len(conj) == 0 {
+			return Val{T: "true", S: SBool}, types.Typ[types.Bool], nil
+		}
+		return Val{T: "(and " + strings.Join(conj, " ") + " true)", S: SBool}, types.Typ[types.Bool], nil
 	case "seen":
 		k, _, err := arg(0)
 		if err != nil {
